@@ -1,7 +1,7 @@
 //! C08 (threshold, schmitt, debounce over i64) and C09 (slopes, peaks over f64 incl. NaN, and the slope-driven path).
 use crate::util::*;
 use signalo_filters::classify::{debounce, peaks, schmitt, slopes, threshold};
-use signalo_traits::{Filter, FromGuts, IntoGuts, WithConfig};
+use signalo_traits::{Filter, FromGuts, IntoGuts, StateMut, WithConfig};
 
 pub const H08: &str = "From Coq Require Import ZArith NArith.\nFrom Signalo Require Import Check.Common Check.C08.\nOpen Scope Z_scope.";
 pub const H09: &str = "From Coq Require Import ZArith.\nFrom Signalo Require Import Check.Common Check.C09.\nOpen Scope Z_scope.";
@@ -23,7 +23,7 @@ pub fn gen08(tier: &str, rng: &mut Rng) -> Vec<Spec> {
     // debounce: thresholds 0..8, fresh and injected counters at the end of the range
     for thr in 0..=8u64 { for xs in crate::util::all_seqs(&[7i64, 3], if t { 9 } else { 7 }) {
         v.push(Spec::new("debounce").with("a", 7).with("thr", thr).with("c0", 0).with("off", 10).with("on", 20).with("xs", join(&xs))); } }
-    for c0 in [u64::MAX, u64::MAX - 1, u64::MAX - 2, u64::MAX - 3] { for thr in [0u64, 1, 3, u64::MAX - 2, u64::MAX - 1, u64::MAX] {
+    for c0 in [u64::MAX, u64::MAX - 1, u64::MAX - 2, u64::MAX - 3, 5, 1000] { for thr in [0u64, 1, 3, u64::MAX - 2, u64::MAX - 1, u64::MAX] {
         for xs in crate::util::all_seqs(&[7i64, 3], if t { 7 } else { 5 }) {
             v.push(Spec::new("debounce").with("a", 7).with("thr", thr).with("c0", c0).with("off", 10).with("on", 20).with("xs", join(&xs))); } } }
     for _ in 0..(if t { 2000 } else { 300 }) {
@@ -51,7 +51,9 @@ pub fn exec08(s: &Spec, stats: &mut Stats) -> Outcome {
             k = 1; thr = 0; c0 = 0; fin = f.into_guts().1.on as u64; }
         _ => { thr = s.u64("thr"); c0 = s.u64("c0");
             if c0 > 0 { stats.bump("debounce-injected-counter"); }
-            let mut f = debounce::Debounce::from_guts((debounce::Config { threshold: thr as usize, predicate: a, outputs: [off, on] }, debounce::State { count: c0 as usize }));
+            let cfg = debounce::Config { threshold: thr as usize, predicate: a, outputs: [off, on] };
+            let mut f = if xs.len() % 2 == 0 { debounce::Debounce::from_guts((cfg, debounce::State { count: c0 as usize })) }
+                        else { let mut f = debounce::Debounce::with_config(cfg); unsafe { f.state_mut().count = c0 as usize; } f };
             for x in &xs { match catch(|| f.filter(*x)) { Ok(y) => ys.push(y), Err(_) => { panic = true; break } } }
             k = 2; b = 0; fin = f.into_guts().1.count as u64; }
     }
